@@ -327,6 +327,12 @@ func proof03Workload(args []string) int {
 	w := vlog.Open(a.Out)
 	for id := a.From; id < a.To; id++ {
 		rng := vlog.CaseRand(a.Seed, "proof03", id)
+		if id%6 == 5 {
+			// receipts and notices relayed from the remote hub (signed by its validators, also with too few
+			// signatures and with signatures that cover a receipt of another type): same cases as C04's
+			guard(w, "hub03", func() { hub04Case(w, a, id, rng) })
+			continue
+		}
 		opts := harness.Options{NoAudit: rng.Intn(2) == 0}
 		if rng.Intn(2) == 0 {
 			opts.ProofType = "parallel"
